@@ -48,6 +48,7 @@ def run(repo: Repo, tier: str, res: CheckResult, seed: int = 0) -> None:
     clone_discipline(repo, res)
     write_inventory(repo, res)
     facade_caches(repo, res)
+    caches_not_carried_over(repo, res)
     # the process-wide lru_cache of normalize_type is keyed by typing's equality (Union[A, B] == Union[B, A]): it is
     # history-free only if the normal form does not depend on the order/spelling the hint was first seen with
     from .c15 import ordering_rule
@@ -542,3 +543,41 @@ def _parents_of(m: ModuleInfo, node: ast.AST, stop: ast.AST):
     while p is not None and p is not stop:
         yield p
         p = m.parent(p)
+
+
+def caches_not_carried_over(repo: Repo, res: CheckResult, prop: str = "C11", rule: str = "FACADE.cache-carried-to-clone",
+                            consequence: str = "") -> None:
+    """The per-retort memos (`_loader_cache`, `_dumper_cache`, `_simple_converter_cache`, `_call_cache`) are keyed by the type
+    (the request) only; what they hold was compiled under the options and the recipe of the retort that owns them. A retort
+    derived by replace() / extend() therefore starts with EMPTY memos (they are created in `_calculate_derived`). Any other
+    method that binds a memo of another retort object, or merges one memo into another, lets functions compiled under one set
+    of options (strict_coercion, debug_trail, recipe) answer for a retort with different ones -- which of the two retorts was
+    used first then decides the behaviour of both."""
+    n = 0
+    for ci in repo.all_classes():
+        if not (repo.is_subclass(ci, "BaseRetort") or ci.name == "BaseRetort"):
+            continue
+        for mname, fn in ci.methods.items():
+            n += 1
+            res.evaluated(f"cache-carry:{ci.name}.{mname}", True)
+            for x in ast.walk(fn):
+                bad = None
+                if isinstance(x, (ast.Assign, ast.AugAssign, ast.AnnAssign)):
+                    targets = x.targets if isinstance(x, ast.Assign) else [x.target]
+                    for t in targets:
+                        if isinstance(t, ast.Attribute) and t.attr.endswith("_cache"):
+                            val = x.value
+                            fresh = val is None or (isinstance(val, ast.Dict) and not val.keys) or (
+                                isinstance(val, ast.Call) and norm(val.func) in ("dict", "WeakKeyDictionary", "weakref.WeakKeyDictionary")
+                                and not val.args and not val.keywords)
+                            if isinstance(x, ast.AugAssign) or not fresh:
+                                bad = x
+                if isinstance(x, ast.Call) and isinstance(x.func, ast.Attribute) and x.func.attr in ("update", "__ior__") \
+                        and isinstance(x.func.value, ast.Attribute) and x.func.value.attr.endswith("_cache"):
+                    bad = x
+                if bad is not None:
+                    res.add(Finding(prop, rule, ci.module.rel, f"{ci.name}.{mname}", norm(bad)[:100],
+                                    f"`{norm(bad)[:90]}`: a per-retort memo is bound to / filled from existing entries instead of starting "
+                                    "empty: the entries were compiled under the options and recipe of the retort that made them and are "
+                                    "keyed by the type alone" + (": " + consequence if consequence else ""), bad.lineno))
+    res.count("FACADE.retort-methods", n, 20)
